@@ -70,5 +70,5 @@ func VfC08_flush_qx() {
 }
 
 func VfC08_flush_t() {
-	vfFlushRun(vfPreCfg{nNH: 1, nNHG: 2, nTop: 1, nHeld: 1, members: 1, topKinds: vfTopAll}, false, true)
+	vfFlushRun(vfPreCfg{nNH: 1, nNHG: 2, nTop: 1, members: 1, topKinds: vfTopAll}, true, true)
 }
